@@ -22,5 +22,6 @@ import NetflowModel.Props.C13
 import NetflowModel.Props.C14
 import NetflowModel.Props.C15
 import NetflowModel.Props.C16
+import NetflowModel.Props.C16b
 import NetflowModel.Props.C17
 import NetflowModel.Props.C17b
